@@ -70,7 +70,7 @@ def collect(ck, n_cases, n_ops):
         out += r["results"]
     crashed = [r for r in out if "crash" in r]
     if crashed:
-        ck.broke("impl-runner-crash", crashed[0]["crash"])
+        ck.runner_crash({"backend": crashed[0].get("backend"), "case_seed": crashed[0].get("seed")}, crashed[0]["crash"])
     return [r for r in out if "crash" not in r]
 
 
@@ -153,7 +153,8 @@ def run(ck: Check):
                   "optional_injection_is_the_optional_lookup": "C19:differs-from-explicit-lookup",
                   "wrapper_kind_decides_the_lookup": "C19:differs-from-explicit-lookup",
                   "injected_call_in_a_closed_context_is_the_explicit_call": "C19:differs-from-explicit-lookup",
-                  "annotations_mean_what_they_say": "C19:differs-from-explicit-lookup"})
+                  "annotations_mean_what_they_say": "C19:differs-from-explicit-lookup",
+                  "injected_lookups_happen_in_signature_order": "C19:differs-from-explicit-lookup"})
     sigs, n_fail = {}, 0
     for r in results:
         for sig, what in oracle(r):
